@@ -142,3 +142,12 @@ package phantoms
 //@   invariant sc != nil && fresh(choices)
 //@ loop 2:
 //@   invariant sc != nil && (cap(out) == 0 || fresh(out))
+
+// The legacy address choice inside a subnet (client library versions 0/1): same requirement - no process-wide state.
+// (Its arithmetic - mask, add, family check - is not characterised here; the address is well-formed by FillBytes.)
+//@ func SelectAddrFromSubnet(seed []byte, net1 *net.IPNet) (net.IP, error)
+//@   requires net1 != nil
+//@   ensures @C14 @C01: result1 == nil ==> len(result0) == 4 || len(result0) == 16
+//@   assigns nothing
+//@ loop 1:
+//@   invariant fresh(mask) && 0 <= i
